@@ -128,7 +128,10 @@ class C01(core.Check):
         for k in range(n):
             focus = [None, 'multicategorical', 'timestamp', 'categorical', 'sequence_numerical', 'numerical',
                      'embedding', 'text_embedded'][k % 8]
-            frame = mg.gen_frame(rng, focus=focus)
+            if k % 211 == 13:
+                frame = mg.gen_frame(rng, n=rng.randint(1024, 1100), ncols=rng.choice([1, 2, 3]), focus=focus)
+            else:
+                frame = mg.gen_frame(rng, focus=focus)
             labels = mg.gen_labels(rng, frame['n']) if rng.random() < 0.3 else mg.gen_labels(rng, frame['n'], 'range')
             yield {'frame': frame, 'labels': labels}
 
